@@ -11,8 +11,10 @@ import (
 	"encoding/binary"
 	"encoding/json"
 	"fmt"
+	"os"
 	"time"
 
+	"github.com/scigolib/hdf5"
 	"github.com/scigolib/hdf5/verifapi"
 
 	"h5v/lib"
@@ -240,4 +242,70 @@ func hcOne(c *hcCase) []lib.Ev {
 		ev["msg"] = s[:300]
 	}
 	return append(evs, ev)
+}
+
+// runDagOpen materialises the counterexample of GroupWalk.tla for the "inprogress" policy: a chain of d groups in
+// which every group has two hard links to the next one.  The file has d groups; a reader that loads a group once per
+// path to it loads 2^d groups.  Open must answer within the budget (it takes about a millisecond when every group is
+// loaded once; 2^24 loads take minutes).
+func runDagOpen(args []string) {
+	_, out, dir, _, _ := stdFlags("dagopen", args)
+	tr := lib.NewTrace()
+	k := 0
+	for _, sbv := range []uint8{0, 2} {
+		const depth = 24
+		ev := lib.Ev{"op": "dag", "sb": int(sbv), "depth": depth, "res": "", "msg": "", "ms": 0}
+		path := lib.TmpFile(dir, k, "dag")
+		res, msg := lib.Call(func() error {
+			fw, err := hdf5.CreateForWrite(path, hdf5.CreateTruncate, hdf5.WithSuperblockVersion(sbv))
+			if err != nil {
+				return err
+			}
+			prev := ""
+			for i := 0; i < depth; i++ {
+				p := fmt.Sprintf("%s/g%d", prev, i)
+				if _, err := fw.CreateGroup(p); err != nil {
+					return err
+				}
+				if i > 0 {
+					if err := fw.CreateHardLink(fmt.Sprintf("%s/h%d", prev, i), p); err != nil {
+						return err
+					}
+				}
+				prev = p
+			}
+			return fw.Close()
+		})
+		if res != "ok" {
+			ev["res"], ev["msg"] = "setup-"+res, msg
+			tr.Put(k, []lib.Ev{{"op": "reset", "cfg": map[string]interface{}{"family": "group-dag", "wf": false, "blocks": [][]hcEntry{}, "ver": 0, "crt": false, "rev": false, "gap": 0, "nblocks": 0}}, ev})
+			k++
+			continue
+		}
+		done := make(chan struct{})
+		t0 := time.Now()
+		go func() {
+			defer close(done)
+			r, m := lib.Call(func() error {
+				f, err := hdf5.Open(path)
+				if err != nil {
+					return err
+				}
+				return f.Close()
+			})
+			ev["res"], ev["msg"] = r, m
+		}()
+		select {
+		case <-done:
+			ev["ms"] = int(time.Since(t0) / time.Millisecond)
+		case <-time.After(20 * time.Second):
+			ev = lib.Ev{"op": "dag", "sb": int(sbv), "depth": depth, "res": "hang", "msg": "Open of a file with 24 groups did not answer within 20 s", "ms": 20000}
+		}
+		tr.Put(k, []lib.Ev{{"op": "reset", "cfg": map[string]interface{}{"family": "group-dag", "wf": false, "blocks": [][]hcEntry{}, "ver": 0, "crt": false, "rev": false, "gap": 0, "nblocks": 0}}, ev})
+		k++
+		_ = os.Remove(path)
+	}
+	n, err := tr.WriteFile(out)
+	lib.Must(err, "write trace")
+	fmt.Printf("dagopen: cases=%d events=%d\n", k, n)
 }
